@@ -18,8 +18,8 @@
 (***************************************************************************)
 EXTENDS NodeFlow, Track, Dispatch, Bytes, Json, IOUtils, TLC
 
-VARIABLES l, cap, cfg, ts, uq, held
-ttvars == <<nodes, now, seqOn, ghost, l, cap, cfg, ts, uq, held>>
+VARIABLES l, cap, cfg, ts, uq, held, bootout, bootms, bootinfo
+ttvars == <<nodes, now, seqOn, ghost, l, cap, cfg, ts, uq, held, bootout, bootms, bootinfo>>
 
 Tr == ndJsonDeserialize(IOEnv.TRACE)
 Ev == Tr[l]
@@ -54,23 +54,49 @@ SendAllG(ns, g, out) ==
              g2 == GhostStep([g EXCEPT !.sub = FPut(@, m.n, FGet(@, m.n, 0) + 1)], ns, ns2, ns, {m.n}, {})
          IN SendAllG(ns2, g2, Tail(out))
 
+(* the part of a start transcript that follows the system reset *)
+AfterReset(d) == LET S == {i \in DOMAIN d.ms : d.ms[i].ty = MSG_SYS_RESET} IN
+                 IF ~d.wf \/ S = {} THEN <<>> ELSE SubSeq(d.ms, MinOf(S) + 1, Len(d.ms))
+
+ConnOk(c, t2, obs) == /\ DOMAIN obs = DOMAIN t2.conn
+                      /\ \A b \in DOMAIN obs : obs[b].conn = t2.conn[b] /\ (t2.conn[b] = 1 => obs[b].addr = t2.addr[b])
+
 StOk(t2) == IF Ev.nost = 1 THEN TRUE ELSE Matches(cfg, t2, Ev.st)
 
-TInit == Init /\ l = 1 /\ cap = 64 /\ cfg = [boards |-> <<>>, track |-> <<>>, trains |-> <<>>] /\ ts = State0([boards |-> <<>>, track |-> <<>>, trains |-> <<>>]) /\ uq = QEmpty /\ held = <<>>
+TInit == Init /\ l = 1 /\ cap = 64 /\ cfg = [boards |-> <<>>, track |-> <<>>, trains |-> <<>>] /\ ts = State0([boards |-> <<>>, track |-> <<>>, trains |-> <<>>]) /\ uq = QEmpty /\ held = <<>> /\ bootout = <<>> /\ bootms = <<>> /\ bootinfo = <<>>
 
 Ghost0 == [sub |-> << >>, wired |-> << >>, last |-> << >>, bad |-> ghost.bad, touched |-> {}, stouched |-> {}]
 
+(* tree = the nodes the bus simulator plays; boot = 1: ms holds the decoded downlink transcript of the whole start
+   (automatic replies on) and the C20 order constraints are checked, state is not compared; boot = 0: start-up
+   traffic was drained, automatic replies are off and the projection after start is compared *)
 TStart == /\ IsEv("start")
           /\ cfg' = Ev.cfg
-          /\ LET paths == [i \in {Ev.paths[j].b : j \in DOMAIN Ev.paths} |-> (CHOOSE x \in RangeS(Ev.paths) : x.b = i).a]
+          /\ LET paths == PathsOf(Ev.cfg, Ev.tree)
                  r == StartState(Ev.cfg, paths)
              IN /\ ts' = r.ts
                 /\ IF Ev.nost = 1 THEN TRUE ELSE Matches(Ev.cfg, r.ts, Ev.st)
+                /\ bootout' = r.out
+          /\ bootms' = <<>> /\ bootinfo' = <<>>
           /\ nodes' = [a \in {Ev.seqs[j].n : j \in DOMAIN Ev.seqs} |->
                           [NewNode EXCEPT !.sseq = IncSeq((CHOOSE x \in RangeS(Ev.seqs) : x.n = a).s)]]
           /\ now' = 0 /\ seqOn' = TRUE /\ cap' = Ev.cap
           /\ ghost' = Ghost0
           /\ uq' = QEmpty /\ held' = <<>>
+
+(* the start transcript (boot sessions): C20 order / exactly-once constraints and C15 connectivity, evaluated on the
+   state the start event established (ts = state after the initial values, bootout = the messages they submit) *)
+(* "bootw" carries the bytes of the start; they are decoded once into the variable bootms *)
+TBootWire == /\ IsEv("bootw")
+             /\ LET d == Decode(Ev.w) IN d.wf /\ bootms' = AfterReset(d)
+             /\ UNCHANGED <<nodes, now, seqOn, ghost, cap, cfg, ts, uq, held, bootout, bootinfo>>
+TBootInfo == /\ IsEv("booti")
+             /\ bootinfo' = BootInfo(cfg, [b \in {x \in DOMAIN ts.conn : ts.conn[x] = 1} |-> ts.addr[b]], bootms, bootout)
+             /\ UNCHANGED <<nodes, now, seqOn, ghost, cap, cfg, ts, uq, held, bootout, bootms>>
+TBoot == /\ IsEv("boot")
+         /\ BootOk(bootms, bootout, bootinfo)
+         /\ ConnOk(cfg, ts, Ev.conn)
+         /\ UNCHANGED <<nodes, now, seqOn, ghost, cap, cfg, ts, uq, held, bootout, bootms, bootinfo>>
 
 (* the message is appended to its queue; when the script drained the queues right after it (dr = 1) they must
    hold exactly what the specification says, oldest first, and are empty afterwards *)
@@ -99,7 +125,7 @@ TUp == /\ IsEv("up")
              /\ QueueStep(r.q, MsgBytes(n, Ev.sq, Ev.ty, Ev.d))
              /\ cap' = IF Ev.ty = MSG_PKT_CAPACITY THEN (IF Ev.d[1] <= 64 THEN 64 ELSE Ev.d[1]) ELSE cap
              /\ StOk(r.ts)
-       /\ UNCHANGED <<now, seqOn, cfg, held>>
+       /\ UNCHANGED <<now, seqOn, cfg, held, bootout, bootms, bootinfo>>
 
 THl == /\ IsEv("hl")
        /\ LET r == Cmd(cfg, ts, [fn |-> Ev.fn, s |-> Ev.s, i |-> Ev.i])
@@ -111,36 +137,36 @@ THl == /\ IsEv("hl")
              /\ ghost' = sa.g
              /\ ts' = r.ts
              /\ StOk(r.ts)
-       /\ UNCHANGED <<now, seqOn, cap, cfg, uq, held>>
+       /\ UNCHANGED <<now, seqOn, cap, cfg, uq, held, bootout, bootms, bootinfo>>
 
 TTick == /\ IsEv("tick")
          /\ now' = now + Ev.d
          /\ LET d == Decode(Ev.w) IN CanConsume(nodes, d) /\ nodes' = Consumed(nodes, d)
          /\ ghost' = [ghost EXCEPT !.touched = {}, !.stouched = {}]
-         /\ UNCHANGED <<seqOn, cap, cfg, ts, uq, held>>
+         /\ UNCHANGED <<seqOn, cap, cfg, ts, uq, held, bootout, bootms, bootinfo>>
 
 TFlush == /\ IsEv("flush")
           /\ LET d == Decode(Ev.w) IN CanConsume(nodes, d) /\ nodes' = Consumed(nodes, d)
           /\ AllOut(nodes')
           /\ StOk(ts)
-          /\ UNCHANGED <<now, seqOn, ghost, cap, cfg, ts, uq, held>>
+          /\ UNCHANGED <<now, seqOn, ghost, cap, cfg, ts, uq, held, bootout, bootms, bootinfo>>
 
 TObs == /\ IsEv("obs")
         /\ StOk(ts)
-        /\ UNCHANGED <<nodes, now, seqOn, ghost, cap, cfg, ts, uq, held>>
+        /\ UNCHANGED <<nodes, now, seqOn, ghost, cap, cfg, ts, uq, held, bootout, bootms, bootinfo>>
 
 (* drain: everything the three read functions return until NULL *)
 TDrain == /\ IsEv("drain")
           /\ Ev.qm = uq.msg /\ Ev.qe = uq.err /\ Ev.qi = uq.int
           /\ uq' = QEmpty
-          /\ UNCHANGED <<nodes, now, seqOn, ghost, cap, cfg, ts, held>>
+          /\ UNCHANGED <<nodes, now, seqOn, ghost, cap, cfg, ts, held, bootout, bootms, bootinfo>>
 
 (* one call of bidib_read_message / bidib_read_error_message: k = "msg" | "err", m = returned bytes, <<>> for NULL *)
 TRead == /\ IsEv("rd")
          /\ LET r == QRead(uq, Ev.k) IN
             /\ Ev.m = (IF r.ok THEN r.res ELSE <<>>)
             /\ uq' = r.uq
-         /\ UNCHANGED <<nodes, now, seqOn, ghost, cap, cfg, ts, held>>
+         /\ UNCHANGED <<nodes, now, seqOn, ghost, cap, cfg, ts, held, bootout, bootms, bootinfo>>
 
 (* C17: results taken now (hold) and looked at again later (held), also after the library stopped *)
 THold == /\ IsEv("hold")
@@ -150,12 +176,12 @@ THold == /\ IsEv("hold")
 THeld == /\ IsEv("held")
          /\ Ev.k \in DOMAIN held
          /\ BundleMatches(cfg, held[Ev.k], Ev.b)
-         /\ UNCHANGED <<nodes, now, seqOn, ghost, cap, cfg, ts, uq, held>>
+         /\ UNCHANGED <<nodes, now, seqOn, ghost, cap, cfg, ts, uq, held, bootout, bootms, bootinfo>>
 (* bidib_stop: the shutdown traffic is C16's subject; kept results stay comparable *)
 TStop == /\ IsEv("stop")
-         /\ UNCHANGED <<nodes, now, seqOn, ghost, cap, cfg, ts, uq, held>>
+         /\ UNCHANGED <<nodes, now, seqOn, ghost, cap, cfg, ts, uq, held, bootout, bootms, bootinfo>>
 
-TNext == THold \/ THeld \/ TStop \/ TStart \/ TUp \/ THl \/ TTick \/ TFlush \/ TObs \/ TDrain \/ TRead
+TNext == TBootWire \/ TBootInfo \/ TBoot \/ THold \/ THeld \/ TStop \/ TStart \/ TUp \/ THl \/ TTick \/ TFlush \/ TObs \/ TDrain \/ TRead
 TSpec == TInit /\ [][TNext]_ttvars
 
 NotAccepted == l <= Len(Tr)
